@@ -42,7 +42,7 @@ def run(chk, tier):
     go_build("jsreplay", binp)
     # 1. the compact model refines ECMA-262's list-with-emptied-slots formulation (pure model check)
     with phase(chk, "refine"):
-        r = run_tlc("OMap", cfg(["n1", "s1", "z"], ["a"], ["v1"], 2 if thorough else 1, 3, 6 if thorough else 5,
+        r = run_tlc("OMap", cfg(["n1", "s1", "z"], ["a"], ["v1"], 2 if thorough else 1, 3, 5,      # (thorough with 6 slots: 35 M states, 50 min)
                                 kinds=["entries"], emit=False), os.path.join(wd, "refine"), timeout=1500)
     tlc_must_pass(r, "OMap refinement")
     chk.add("states", r.distinct)
@@ -58,7 +58,8 @@ def run(chk, tier):
     if thorough:
         plans = [
             # (4 keys x 4 live entries x 2 cursors was measured at > 18 GB per walker process and did not finish in 25 min)
-            ("map", ["n1", "s1", "z"], ["v1", "v2"], 2, 4),
+            # (2 values x 4 live entries x 2 cursors: the walker of this one graph needed > 10 GB under load)
+            ("map", ["n1", "s1", "z"], ["v1", "v2"], 3, 3),
             ("set", ["nan", "sl", "o1"], ["v"], 2, 4),
             ("map", ["su", "y1", "big"], ["v1", "v2"], 3, 3),
             ("set", ["slu", "s1", "u"], ["v"], 2, 3),
